@@ -35,7 +35,11 @@ checks.update({
  "C09": dict(engine="format", text="Independent encoder/decoder (README only) reproduces every segment file byte for byte after every step of every sequence to the depth bound and decodes it back to the model; metadata record checked for the documented JSON shape; golden directories written by the pinned version open with identical contents and stay independently decodable after the current tree appends to them.", ref="4/C09, 3.7", note="Trusted base: verif/fmtspec (independent format implementation), the golden fixtures (written by the pinned commit with tools/goldengen), bbolt for reading the fixture metadata, the reference model."),
  "C10": dict(engine="fault", text="Every I/O step of short workloads fails in turn (three flavours, transient and persistent), the workload continues (retry, append, stable write), faults are cleared and the WAL is reopened; acknowledged entries must be intact in process and after reopen, failed appends invisible, failed calls all-or-nothing after reopen.", ref="4/C10, 3.2", note=crash_note),
 })
+checks.update({
+ "C11": dict(engine="mut", text="Full single/pair mutation menu over small base directories and the metadata record, each mutant opened, read, dumped and closed by the real code: no panic, termination, allocation bounded by directory size + MaxEntrySize; damaged entry encodings must decode to an error; missing/short/foreign-header sealed segments must fail Open; a failed Open on the real stack must not leave the directory locked.", ref="4/C11, 3.6", note=enum_note),
+})
 technique = {
+ "mut": "exhaustive enumeration of a bounded mutation menu on the real code",
  "format": "bounded-exhaustive operation sequences with an independent reimplementation of the on-disk format as oracle, plus golden fixtures",
  "fault": "exhaustive fault-position enumeration on the real code against a set-valued reference model",
  "cluster": "explicit-state breadth-first search over cluster histories with transitions executed on the real verifier middleware",
@@ -57,6 +61,7 @@ m = {
   {"name": "crash", "path": "harness/core/crash.go", "serves_properties": ["C01", "C02", "C03", "C04", "C08", "C13"], "kind_free_text": "explicit-state search over durable disk images with exhaustive crash-image enumeration"},
   {"name": "seq", "path": "harness/core/seq.go", "serves_properties": ["C05", "C08", "C13", "C20"], "kind_free_text": "bounded-exhaustive operation sequences vs reference model, simulated and real stacks"},
   {"name": "enum", "path": "harness/worker/codec.go, harness/worker/migrate.go", "serves_properties": ["C12", "C15", "C19"], "kind_free_text": "exhaustive product enumeration of boundary menus"},
+  {"name": "mut", "path": "harness/worker/mut.go", "serves_properties": ["C11"], "kind_free_text": "exhaustive bounded mutation of stored bytes"},
   {"name": "format", "path": "harness/worker/format.go, fmtspec/", "serves_properties": ["C09"], "kind_free_text": "independent format implementation + golden fixtures"},
   {"name": "fault", "path": "harness/core/fault.go", "serves_properties": ["C10"], "kind_free_text": "exhaustive I/O fault position enumeration"},
   {"name": "cluster", "path": "harness/core/vcluster.go, harness/core/vtwin.go", "serves_properties": ["C16", "C17", "C18"], "kind_free_text": "BFS over verifier cluster histories; twin-store sequences; blocked-ReportFn schedules"},
